@@ -50,3 +50,18 @@ pub fn all_variants(lang: &str, n: u64) -> std::collections::BTreeSet<String> {
     loop { set.insert(cardinal(lang, n, &mut e).join(" ")); if !e.advance() { break; } }
     set
 }
+
+/// Cardinal spelling for the properties other than C01: the one spelling recorded as a known
+/// finding under C01 (de `eine` before Million/Milliarde) is replaced by the accepted `ein`,
+/// so that the same defect is not re-reported under every property that spells integers.
+pub fn cardinal_nk(lang: &str, n: u64, c: &mut dyn Chooser) -> Vec<String> {
+    let mut w = cardinal(lang, n, c);
+    if lang == "de" {
+        for i in 0..w.len().saturating_sub(1) {
+            if w[i] == "eine" && (w[i + 1].starts_with("million") || w[i + 1].starts_with("milliarde")) {
+                w[i] = s("ein");
+            }
+        }
+    }
+    w
+}
